@@ -155,6 +155,15 @@ def sym_in(it, a, b):
             if r is not False:
                 disj.append(zbool(r))
         return mk_bool(z3.Or(disj)) if disj else False
+    if isinstance(b, range) and isinstance(a, (SInt, SBool)):
+        e = zint(a)
+        if b.step > 0:
+            conj = [e >= b.start, e < b.stop]
+        else:
+            conj = [e <= b.start, e > b.stop]
+        if abs(b.step) != 1:
+            conj.append((e - b.start) % abs(b.step) == 0)
+        return mk_bool(z3.And(conj))
     if is_sym(a) or contains_sym(b, 1):
         raise Unsupported(f"'in' on {type(b).__name__}")
     return it.nat(lambda: a in b)
